@@ -12,6 +12,26 @@ Supported subset (anything else -> Unsupported -> exit 1 -> the check treats the
                carrier), `np.where(a.flatten() == k)[0]` (primitive `whereEq`)
 Typing: each kernel declares its parameters ("arr" | "int" | "num" | "out"); locals are `Int` when assigned an integer-only
 expression, otherwise the carrier.  Integer-valued kernels use the carrier `Int`.
+
+Optional per-kernel setting `round_stores={"<array>": "<fn>"}` (rounding-aware translation of a floating-point array that
+the integer carrier otherwise idealises): the generated function takes an additional leading parameter `<fn> : Int → Int`
+("the value stored into a cell of this array when the exact value is the integer n", e.g. float32 rounding) and EVERY value
+stored into `<array>` is wrapped by it: `a[i] = e` -> `wr a i (fn e)`, `a[i] += e` -> `wr a i (fn ((rd a i) + e))`,
+`a[:] = e` -> `a.map (fun _ => (fn e))`.  Reads are not wrapped (a stored value is read back unchanged) and nothing else is
+rounded: this models an accumulation in the array's own type, i.e. the addition `a[i] + e` is taken to be computed exactly
+and rounded once by the store (true for IEEE arithmetic when `e` is representable in the type the addition is done in).
+Stores of a sentinel (`yy[ii] = nodata`) are wrapped like every other store - float32(nodata) is what the array holds - so a
+theorem about the generated program needs `fn nodata = nodata` (the sentinel is representable, |nodata| <= 2^24 for float32;
+cf. the repaired defect about sentinels beyond 2^24) or it shows the rounded sentinel.  Kernels without the setting are
+translated exactly as before (byte-identical output).
+
+Instrumentation mode (`K(cfg, fn, safe=True)`, `translate(cfg, safe=True)`): for every kernel a second module
+Hdc/Gen/Safe<Name>.lean with THE SAME program plus one mutable flag `bad : Bool`, raised in front of every statement whose
+subscripts are outside Python's accepted range (what exactly is checked: SAFE_HEADER below = Hdc/Gen/SafeBase.lean); the
+program returns `(result, bad)`.  Implementation: the expression translators record one condition per subscript (`chk`) and
+`emit` writes `bad := (bad || c1 || ..)` in front of the statement that is being emitted; with `safe=False` nothing is
+recorded and the output is byte-identical to what it was.  Hdc/Props/Safe<Name>.lean prove, per kernel, `safe_<k>_fst`
+(first component = the uninstrumented program, by the lock-step tactic `safe_sim`) and `safe_<k>_ok` (flag down in contract).
 """
 import ast
 import hashlib
@@ -31,6 +51,9 @@ KERNELS = [
     # (lean name, file, python function, {param: kind}, result description)
     dict(name="rolling_sum", file="hdc/algo/ops/stats.py", func="rolling_sum", unwrap=True,
          params=dict(xx="arr", window_size="int", nodata="num", yy="out"), ret="yy"),
+    # the same source with the float32 accumulator `yy` made explicit: every store into `yy` goes through `rnd`
+    dict(name="rolling_sum_r", file="hdc/algo/ops/stats.py", func="rolling_sum", unwrap=True,
+         params=dict(xx="arr", window_size="int", nodata="num", yy="out"), ret="yy", round_stores=dict(yy="rnd")),
     dict(name="mk_score_counts", file="hdc/algo/ops/stats.py", func="mk_score", unwrap=False,
          params=dict(x="arr"), ret=("_s1", "_s2"), stop_before="tau"),
     dict(name="lroo", file="hdc/algo/ops/lroo.py", func="lroo", unwrap=True,
@@ -41,14 +64,30 @@ KERNELS = [
 
 
 class K:
-    def __init__(self, cfg, fn):
+    def __init__(self, cfg, fn, safe=False):
         self.cfg, self.fn = cfg, fn
+        self.safe = safe                       # instrumentation mode: the same program + the flag `bad` (see SAFE_HEADER)
+        self.checks = []                       # violation conditions of the statement being translated (safe mode)
         self.kinds = dict(cfg["params"])       # name -> arr | int | num | out
         self.ints = {k for k, v in self.kinds.items() if v == "int"}
         self.arrs = {k for k, v in self.kinds.items() if v in ("arr", "out")}
         self.nums = {k for k, v in self.kinds.items() if v == "num"}
         self.declared = set(self.kinds)
         self.lines = []
+        # optional: arrays whose stores are rounded, array name -> name of the rounding parameter (Int -> Int)
+        self.round_stores = dict(cfg.get("round_stores") or {})
+        for arr, fn_name in self.round_stores.items():
+            if arr not in self.arrs:
+                raise Unsupported(f"round_stores: {arr} is not an array parameter")
+            if fn_name in self.kinds:
+                raise Unsupported(f"round_stores: the name {fn_name} is a parameter of the kernel")
+            if any(isinstance(n, ast.Name) and n.id == fn_name for n in ast.walk(fn)):
+                raise Unsupported(f"round_stores: the name {fn_name} occurs in the source")
+
+    def stored(self, arr, term):
+        """the value that ends up in a cell of `arr` when `term` is stored (identity unless `arr` is in round_stores)"""
+        fn_name = self.round_stores.get(arr)
+        return term if fn_name is None else f"({fn_name} {term})"
 
     # ---- typing
     def is_int(self, e):
@@ -95,6 +134,17 @@ class K:
             return e.id
         raise Unsupported("array expression " + ast.dump(e)[:60])
 
+    # ---- instrumentation (safe mode only; without it nothing below changes the output)
+    def chk(self, term):
+        """record a violation condition (a Bool term) of the statement being translated; `emit` writes
+        `bad := (bad || c1 || ...)` in front of the statement"""
+        if self.safe and term not in self.checks:
+            self.checks.append(term)
+
+    def chk_index(self, arr, i):
+        """`arr[i]`, read or write: violated unless -len(arr) <= i < len(arr)"""
+        self.chk(f"(oob ({arr}.size : Int) {i})")
+
     def nexpr(self, e):
         """carrier-valued expression (carrier = Int for these kernels)"""
         if self.is_int(e):
@@ -104,7 +154,9 @@ class K:
                 raise Unsupported("array used as scalar")
             return e.id
         if isinstance(e, ast.Subscript) and isinstance(e.value, ast.Name) and e.value.id in self.arrs:
-            return f"(rd {e.value.id} {self.iexpr(e.slice)})"
+            i = self.iexpr(e.slice)
+            self.chk_index(e.value.id, i)
+            return f"(rd {e.value.id} {i})"
         if isinstance(e, ast.BinOp) and isinstance(e.op, (ast.Add, ast.Sub, ast.Mult)):
             op = {ast.Add: "+", ast.Sub: "-", ast.Mult: "*"}[type(e.op)]
             return f"({self.nexpr(e.left)} {op} {self.nexpr(e.right)})"
@@ -122,13 +174,30 @@ class K:
             return f"(decide ({self.nexpr(e.left)} {op.replace('==', '=').replace('!=', '≠')} {self.nexpr(e.comparators[0])}))"
         if isinstance(e, ast.BoolOp):
             op = " && " if isinstance(e.op, ast.And) else " || "
-            return "(" + op.join(self.bexpr(v) for v in e.values) + ")"
+            parts = []
+            for j, v in enumerate(e.values):
+                n0 = len(self.checks)
+                term = self.bexpr(v)
+                if j > 0 and len(self.checks) > n0:
+                    # Python evaluates a later operand only when the earlier ones do not decide: its checks are guarded
+                    fresh = self.checks[n0:]
+                    del self.checks[n0:]
+                    guard = "(" + op.join(parts) + ")"
+                    if isinstance(e.op, ast.Or):
+                        guard = f"(!{guard})"
+                    for c in fresh:
+                        self.chk(f"({guard} && {c})")
+                parts.append(term)
+            return "(" + op.join(parts) + ")"
         if isinstance(e, ast.UnaryOp) and isinstance(e.op, ast.Not):
             return f"(!{self.bexpr(e.operand)})"
         raise Unsupported("condition " + ast.dump(e)[:60])
 
     # ---- statements
     def emit(self, ind, txt):
+        if self.checks:                        # safe mode: the checks of this statement's subscripts, evaluated before it
+            cs, self.checks = self.checks, []
+            self.lines.append("  " * ind + "bad := (bad || " + " || ".join(cs) + ")")
         self.lines.append("  " * ind + txt)
 
     def assign_name(self, name, value_ast, ind):
@@ -171,9 +240,12 @@ class K:
             if isinstance(t, ast.Subscript) and isinstance(t.value, ast.Name) and t.value.id in self.arrs:
                 if isinstance(t.slice, ast.Slice):
                     if t.slice.lower is None and t.slice.upper is None:
-                        return self.emit(ind, f"{t.value.id} := {t.value.id}.map (fun _ => {self.nexpr(s.value)})")
+                        return self.emit(ind, f"{t.value.id} := {t.value.id}.map (fun _ => {self.stored(t.value.id, self.nexpr(s.value))})")
                     raise Unsupported("slice store")
-                return self.emit(ind, f"{t.value.id} := wr {t.value.id} {self.iexpr(t.slice)} {self.nexpr(s.value)}")
+                val = self.nexpr(s.value)
+                i = self.iexpr(t.slice)
+                self.chk_index(t.value.id, i)
+                return self.emit(ind, f"{t.value.id} := wr {t.value.id} {i} {self.stored(t.value.id, val)}")
             raise Unsupported("assignment target")
         if isinstance(s, ast.AugAssign) and isinstance(s.op, ast.Add):
             t = s.target
@@ -184,7 +256,8 @@ class K:
                 return self.emit(ind, f"{t.id} := ({t.id} + {rhs})")
             if isinstance(t, ast.Subscript) and isinstance(t.value, ast.Name) and t.value.id in self.arrs:
                 i = self.iexpr(t.slice)
-                return self.emit(ind, f"{t.value.id} := wr {t.value.id} {i} ((rd {t.value.id} {i}) + {self.nexpr(s.value)})")
+                self.chk_index(t.value.id, i)
+                return self.emit(ind, f"{t.value.id} := wr {t.value.id} {i} {self.stored(t.value.id, f'((rd {t.value.id} {i}) + {self.nexpr(s.value)})')}")
             raise Unsupported("augmented target")
         if isinstance(s, ast.For) and isinstance(s.target, ast.Name) and isinstance(s.iter, ast.Call) and isinstance(s.iter.func, ast.Name) and s.iter.func.id == "range":
             a = s.iter.args
@@ -229,6 +302,8 @@ class K:
                             self.emit(1, f"let mut {nm} : Int := 0")
 
     def run(self):
+        if self.safe:
+            self.emit(1, "let mut bad : Bool := false")
         for nm, kind in self.cfg["params"].items():
             if kind == "out":
                 self.emit(1, f"let mut {nm} : Array Int := {nm}")     # output buffers are assigned to
@@ -241,16 +316,17 @@ class K:
                 break
             self.stmt(s, 1)
         ret = self.cfg["ret"]
-        self.emit(1, "return " + (ret if isinstance(ret, str) else "(" + ", ".join(ret) + ")"))
+        rterm = ret if isinstance(ret, str) else "(" + ", ".join(ret) + ")"
+        self.emit(1, "return " + (f"({rterm}, bad)" if self.safe else rterm))
         return "\n".join(self.lines)
 
     def signature(self):
-        parts = []
+        parts = [f"({fn_name} : Int → Int)" for fn_name in dict.fromkeys(self.round_stores.values())]
         for nm, kind in self.cfg["params"].items():
             parts.append(f"({nm} : {'Array Int' if kind in ('arr', 'out') else 'Int'})")
         ret = self.cfg["ret"]
         rty = "Array Int" if isinstance(ret, str) else " × ".join("Int" for _ in ret)
-        return " ".join(parts), rty
+        return " ".join(parts), (f"({rty}) × Bool" if self.safe else rty)
 
 
 HEADER = """/-
@@ -287,6 +363,47 @@ def pySlice (a : Array Int) (lo hi : Int) : Array Int :=
 """
 
 
+SAFE_HEADER = """/-
+GENERATED by harness/py2lean.py (fixed prelude).  Do not edit.
+Instrumentation mode of the integer-kernel translators (py2lean.py, the integer half of py2lean_stats.py): next to
+Hdc/Gen/K<Kernel>.lean a second module Hdc/Gen/Safe<Kernel>.lean holds THE SAME program, statement by statement, with
+one more mutable variable `bad : Bool` (initially false) and, in front of every statement that subscripts an array, one
+statement `bad := (bad || c1 || ... )` with a condition per subscript of that statement (in evaluation order, duplicates
+once); the program returns `(result, bad)`.  Numba compiles the kernels without bounds checks: `bad = false` says that no
+subscript of the run was outside its array.
+
+  a[i]  (read, write, `a[i] += v`)   oob a.size i           : NOT  -len(a) <= i < len(a)   (Python's accepted range; negative
+                                                              indices wrap, which the flag accepts)
+  a[i, j] / a[i, j, k]               oob d0 i || oob d1 j (|| oob d2 k)  each index against ITS axis, and
+                                     oobFlat a.size (flat.. )            the row-major position inside the flat buffer the
+                                                                         translation passes the n-d array as
+  p = a[mask]   a[mask] = v          maskBad a mask         : NOT  len(mask) == len(a)
+  x / n  with an integer divisor     n = 0                  (true division; a floating divisor is Unsupported in this mode;
+                                                             `//` and `%` are not in the translated subset at all)
+  a[lo:hi] (views), a[:] = v         nothing: Python and Numba clamp slice bounds to the array, a slice never leaves it
+  for v in a:                        nothing: the iteration reads the cells 0 .. len(a)-1
+A subscript inside a later operand of `p and q` / `p or q` is evaluated conditionally: its condition is guarded, `(p && c)` /
+`(!p && c)`.
+-/
+namespace Hdc.Gen.Safe
+
+/-- `i` is NOT an index Python accepts on an axis of length `n` (accepted: `-n ≤ i < n`) -/
+def oob (n : Int) (i : Int) : Bool := decide (i < -n) || decide (n ≤ i)
+
+/-- the row-major position `p` is outside a flat buffer of `n` cells (no wrap-around here) -/
+def oobFlat (n : Nat) (p : Int) : Bool := decide (p < 0) || decide ((n : Int) ≤ p)
+
+/-- a boolean mask that has not the length of the array it selects from -/
+def maskBad {γ : Type} (a : Array γ) (mask : Array Bool) : Bool := decide (mask.size ≠ a.size)
+
+end Hdc.Gen.Safe
+"""
+
+
+def module_name(cfg, prefix="K"):
+    return prefix + "".join(w.capitalize() for w in cfg["name"].split("_"))
+
+
 def write_if_changed(path, text):
     path.parent.mkdir(parents=True, exist_ok=True)
     if not path.exists() or path.read_text() != text:
@@ -296,29 +413,47 @@ def write_if_changed(path, text):
         print(f"py2lean: wrote {path}")
 
 
+def translate(cfg, safe=False):
+    """the text of Hdc/Gen/K<Name>.lean (safe=False) or of the instrumented Hdc/Gen/Safe<Name>.lean (safe=True)"""
+    src = (REPO / cfg["file"]).read_text()
+    mod = ast.parse(src)
+    fn = next(n for n in ast.walk(mod) if isinstance(n, ast.FunctionDef) and n.name == cfg["func"])
+    k = K(cfg, fn, safe=safe)
+    body = k.run()
+    if k.checks:
+        raise Unsupported("safe mode: checks left over")
+    sig, rty = k.signature()
+    sha = hashlib.sha256(ast.get_source_segment(src, fn).encode()).hexdigest()[:16]
+    if safe:
+        return (f"import Hdc.Gen.KernelsBase\nimport Hdc.Gen.SafeBase\n/-\nGENERATED by harness/py2lean.py (instrumentation mode) from {cfg['file']}::{cfg['func']} "
+                f"(sha256 of the function source {sha}).  Do not edit.\n-/\n"
+                f"namespace Hdc.Gen.Safe\nopen Hdc.Gen.Kernels (rd wr pyRange pyRangeDown whereEq pySlice)\n\n"
+                f"/-- `{cfg['file']}::{cfg['func']}` with the flag `bad`: (result, some subscript was out of range) -/\n"
+                f"def {cfg['name']} {sig} : {rty} := Id.run do\n{body}\n\nend Hdc.Gen.Safe\n")
+    note = "".join(f"\nEvery value stored into `{a}` is wrapped by the parameter `{f} : Int → Int` (round_stores)." for a, f in k.round_stores.items())
+    return (f"import Hdc.Gen.KernelsBase\n/-\nGENERATED by harness/py2lean.py from {cfg['file']}::{cfg['func']} (sha256 of the function source {sha}).  Do not edit.{note}\n-/\n"
+            f"namespace Hdc.Gen.Kernels\n\n/-- `{cfg['file']}::{cfg['func']}` -/\ndef {cfg['name']} {sig} : {rty} := Id.run do\n{body}\n\nend Hdc.Gen.Kernels\n")
+
+
 def main():
     """One generated module per kernel (Hdc/Gen/K<Name>.lean) on top of the fixed prelude Hdc/Gen/KernelsBase.lean, so that a
     change to one kernel's source touches only the theorems about that kernel.  A kernel that cannot be translated is reported
-    as `FAILED <module>: reason` (exit 1); its previous output is left in place (stale, and treated as broken by the checks)."""
+    as `FAILED <module>: reason` (exit 1); its previous output is left in place (stale, and treated as broken by the checks).
+    In addition, per kernel, the instrumented module Hdc/Gen/Safe<Name>.lean (prelude Hdc/Gen/SafeBase.lean)."""
     gen = OUT.parent
     write_if_changed(gen / "KernelsBase.lean", HEADER + "end Hdc.Gen.Kernels\n")
+    write_if_changed(gen / "SafeBase.lean", SAFE_HEADER)
     rc = 0
     for cfg in KERNELS:
-        module = "K" + "".join(w.capitalize() for w in cfg["name"].split("_"))
-        try:
-            src = (REPO / cfg["file"]).read_text()
-            mod = ast.parse(src)
-            fn = next(n for n in ast.walk(mod) if isinstance(n, ast.FunctionDef) and n.name == cfg["func"])
-            k = K(cfg, fn)
-            body = k.run()
-            sig, rty = k.signature()
-            sha = hashlib.sha256(ast.get_source_segment(src, fn).encode()).hexdigest()[:16]
-            text = (f"import Hdc.Gen.KernelsBase\n/-\nGENERATED by harness/py2lean.py from {cfg['file']}::{cfg['func']} (sha256 of the function source {sha}).  Do not edit.\n-/\n"
-                    f"namespace Hdc.Gen.Kernels\n\n/-- `{cfg['file']}::{cfg['func']}` -/\ndef {cfg['name']} {sig} : {rty} := Id.run do\n{body}\n\nend Hdc.Gen.Kernels\n")
-            write_if_changed(gen / f"{module}.lean", text)
-        except (Unsupported, StopIteration, KeyError, IndexError, AttributeError, OSError, SyntaxError) as e:
-            print(f"FAILED Hdc.Gen.{module}: unsupported construct in {cfg['func']}: {e!r}")
-            rc = 1
+        for safe in (False, True):
+            if safe and cfg.get("round_stores"):
+                continue          # the rounding-aware variant is a second reading of the same source; its Safe twin is that of the plain kernel
+            module = module_name(cfg, "Safe" if safe else "K")
+            try:
+                write_if_changed(gen / f"{module}.lean", translate(cfg, safe))
+            except (Unsupported, StopIteration, KeyError, IndexError, AttributeError, OSError, SyntaxError) as e:
+                print(f"FAILED Hdc.Gen.{module}: unsupported construct in {cfg['func']}: {e!r}")
+                rc = 1
     return rc
 
 
